@@ -24,7 +24,8 @@ PROPERTY = "C10"
 RULE = (
     "case = generated function (progen, all placement forms: bindings only inside except/with/for/try/else/"
     "finally, walrus also inside comprehensions, imports, nested def/class/lambda/comprehension scopes reusing "
-    "outer names, closures) x identifier drawn from symtable's symbols of f, fresh names, bad meta-variables x "
+    "outer names, closures, enclosing variables that only pass through f to an inner def) x identifier drawn from "
+    "symtable's symbols of f, fresh names, bad meta-variables (incl. every truncation of a documented one) x "
     "target object (the function, unresolvable name, builtin, class, callable instance, functools.partial, "
     "lambda, async def). Non-trivial = the identifier's only binding/read sits inside a compound statement or "
     "is reused by a nested scope, or the target is not a plain function; distinct by (source, identifier, target)."
